@@ -730,7 +730,7 @@ func (ip *Interp) typeAssert(instr *ssa.TypeAssert, itf Iface) Value {
 	var v Value
 	err := ""
 	if itf.t == nil {
-		err = fmt.Sprintf("interface conversion: interface is nil, not %s", instr.AssertedType)
+		err = "interface conversion: interface is nil"
 	} else if idst, ok := instr.AssertedType.Underlying().(*types.Interface); ok {
 		v = itf
 		if itf.t == runtimeErrorType {
@@ -741,12 +741,15 @@ func (ip *Interp) typeAssert(instr *ssa.TypeAssert, itf Iface) Value {
 				}
 			}
 		} else if meth, _ := types.MissingMethod(itf.t, idst, true); meth != nil {
-			err = fmt.Sprintf("interface conversion: %v is not %v: missing method %s", itf.t, instr.AssertedType, meth.Name())
+			err = "interface conversion: missing method " + meth.Name()
 		}
-	} else if types.Identical(itf.t, instr.AssertedType) {
+	} else if itf.t == instr.AssertedType || types.Identical(itf.t, instr.AssertedType) {
 		v = itf.v
 	} else {
-		err = fmt.Sprintf("interface conversion: interface is %s, not %s", itf.t, instr.AssertedType)
+		err = "interface conversion: wrong dynamic type"
+		if !instr.CommaOk {
+			err = fmt.Sprintf("interface conversion: interface is %s, not %s", itf.t, instr.AssertedType)
+		}
 	}
 	if err != "" {
 		if !instr.CommaOk {
